@@ -389,14 +389,14 @@ def getitem(I, st, base, sl, mod, node):
 def arr_getitem(I, st, A, idx, node):
     if not isinstance(idx, tuple) or _is_slice(idx):
         idx = (idx,)
-    if idx and idx[0] == ("ellipsis",):
+    if idx and isinstance(idx[0], tuple) and idx[0] == ("ellipsis",):
         idx = tuple([("slice", None, None, None)] * (A.ndim - (len(idx) - 1))) + idx[1:]
     # np.newaxis handling: a[:, None] / a[None, :]
-    if any(x is None for x in idx):
+    if any(x is None for x in idx if not is_sym(x)):
         shape, pos = [], []
         src = 0
         for x in idx:
-            if x is None:
+            if not is_sym(x) and x is None:
                 shape.append(1)
                 pos.append(None)
             elif _full_slice(x):
@@ -516,7 +516,7 @@ def setitem(I, st, base, sl, value, mod, node):
     V = arr_of(st, value)
     if not isinstance(idx, tuple) or _is_slice(idx):
         idx = (idx,)
-    if idx and idx[0] == ("ellipsis",):
+    if idx and isinstance(idx[0], tuple) and idx[0] == ("ellipsis",):
         idx = tuple([("slice", None, None, None)] * (A.ndim - (len(idx) - 1))) + idx[1:]
     idx = tuple(idx) + tuple([("slice", None, None, None)] * (A.ndim - len(idx)))
     # a[mask] = v  /  a[mask] = b[mask']  (rows)
@@ -1239,6 +1239,9 @@ def np_log(I, st, args, kw, node):
 
 @ext("numpy.sqrt", "np.sqrt: real square root on non-negatives (sqrt x >= 0, sqrt(x)^2 = x)")
 def np_sqrt(I, st, args, kw, node):
+    if is_conc(args[0]):
+        import math
+        return math.sqrt(args[0])
     return lift1(I, st, lambda x: T.real.sqrt(to_z3(x, "real")), args[0], "real")
 
 
